@@ -40,13 +40,15 @@ type dbStep struct {
 	IntervalUs int        `json:"interval_us"`
 	Us         int        `json:"us"`
 	Clients    [][]dbStep `json:"clients"`
-	Flavor     string     `json:"flavor"` // "bytes" (default) or "string"
-	Async      bool       `json:"async"`  // EnableAsyncWAL
-	Match      string     `json:"match"`  // failwrites: substring of the writer's base path
-	Which      string     `json:"which"`  // failwrites: data | index
-	Pos        int        `json:"pos"`    // failwrites: position of the failing append
-	KC         string     `json:"kc"`     // argument class of the key for putx/delx/getx: nil | empty | ok
-	VC         string     `json:"vc"`     // argument class of the value for putx
+	Flavor     string     `json:"flavor"`  // "bytes" (default) or "string"
+	Async      bool       `json:"async"`   // EnableAsyncWAL
+	ExactOf    int        `json:"exactof"` // open: if > 0, CompactionMaxSizeBytes := TotalBytes of the (exactof)-th table on disk + Delta
+	Delta      int        `json:"delta"`
+	Match      string     `json:"match"` // failwrites: substring of the writer's base path
+	Which      string     `json:"which"` // failwrites: data | index
+	Pos        int        `json:"pos"`   // failwrites: position of the failing append
+	KC         string     `json:"kc"`    // argument class of the key for putx/delx/getx: nil | empty | ok
+	VC         string     `json:"vc"`    // argument class of the value for putx
 }
 
 type dbCase struct {
@@ -80,6 +82,7 @@ type dbRecorder struct {
 	opening      int32 // events emitted while Open() runs are recovery steps, summarized by the "open" line
 	compacting   int32 // a compaction cycle is between selection and reflect (its private readers are open)
 	compactEpoch int32
+	muted        int32          // events of a throw-away handle are dropped
 	counts       map[string]int // hook events seen so far, by name
 }
 
@@ -148,6 +151,9 @@ func (r *dbRecorder) sink(name string, f map[string]any) {
 	}
 	r.counts[name]++
 	r.mu.Unlock()
+	if atomic.LoadInt32(&r.muted) != 0 {
+		return
+	}
 	if atomic.LoadInt32(&r.opening) != 0 {
 		r.emit(M{"t": "note", "name": "recovery:" + name})
 		return
@@ -308,6 +314,22 @@ func (x *dbExec) step(db *simpledb.DB, s dbStep, g int) (*simpledb.DB, error) {
 	rec := x.rec
 	switch s.Op {
 	case "open":
+		if s.ExactOf > 0 {
+			// exact-equality probe of the selection rule: read the table sizes with a throw-away handle first
+			if probe, err := simpledb.NewSimpleDB(x.dir, simpledb.DisableCompactions()); err == nil {
+				atomic.StoreInt32(&rec.opening, 1)
+				if probe.Open() == nil {
+					ts := probe.VerifTables()
+					if s.ExactOf <= len(ts) {
+						s.MaxSize = uint64(int(ts[s.ExactOf-1].TotalBytes) + s.Delta)
+					}
+					atomic.StoreInt32(&rec.muted, 1)
+					probe.Close()
+					atomic.StoreInt32(&rec.muted, 0)
+				}
+				atomic.StoreInt32(&rec.opening, 0)
+			}
+		}
 		opts := []simpledb.ExtraOption{
 			simpledb.MemstoreSizeBytes(s.Mem), simpledb.CompactionFileThreshold(s.Thr), simpledb.CompactionMaxSizeBytes(s.MaxSize),
 			simpledb.CompactionRatio(float32(s.Ratio) / 1000),
